@@ -214,6 +214,11 @@ def run(chk: Check) -> None:
     scenarios.append({"id": "C05-many", "files": many, "outside": {}, "resfiles": {},
                       "steps": [{"argv": _argv("ff", [], [], True), "expect": {"mayChange": sorted(many), "mustChange": sorted(many)}}],
                       "_meta": {"mode": "ff/rule-detected/many-files", "include": [], "exclude": []}})
+    # a dependency manifest that is a symbolic link to a file outside of the project: it must not be written through
+    scenarios.append({"id": "C05-symlink-manifest", "files": {"app.py": "import requests\n\n\ndef f(u):\n    requests.get(u)\n", "requirements.txt": {"symlink": "../outside/reqs.txt"}},
+                      "outside": {"reqs.txt": "requests\n"}, "resfiles": {},
+                      "steps": [{"argv": ["{dir}", "--output", "{out}", "--codemod-include", "pixee:python/url-sandbox"], "expect": {"mayChange": ["app.py"], "mustChange": ["app.py"]}}],
+                      "_meta": {"mode": "ff/symlinked-manifest", "include": [], "exclude": []}})
     results = runner.run_many(scenarios, chunksize=2)
     traces = [r["steps"][0]["trace"] for r in results]
     verdicts, stats = tracecheck.validate(traces, batch=500)
